@@ -43,5 +43,5 @@ CASES += [
     {"name": "R3g second interaction acts on the ket", "kind": "mutant", "rule": "C12-E", "edits": [
         (ASP, "                                        lp.add_transition((i3g,i2e),-1)", "                                        lp.add_transition((i3g,i2e),+1)", 2)]},
     {"name": "first-interval width looked up with the pair reversed", "kind": "twin", "edits": [
-        (ASP, "                                        self.get_transition_width((i2e, i1g))", "                                        self.get_transition_width((i1g, i2e))", 2)]},
+        (ASP, "                                        self.get_transition_width((i2e, i1g))", "                                        self.get_transition_width((i1g, i2e))", 5)]},
 ]
